@@ -405,12 +405,13 @@ type Flow struct {
 	// Tags makes the engine remember, across the return of an inlined helper, the
 	// constant its last (bool) result had, until the caller branches on that
 	// result: `if !helper() { return }` then follows only the helper's `return
-	// false` paths. States must stay below 21 when Tags is set.
+	// false` paths.
 	Tags bool
 
-	memo  map[flowKey]StateSet
+	memo  map[flowKey][]code
 	stack map[*ssa.Function]bool
 	res   *FlowResult
+	flags map[*ssa.Function]*flagInfo
 }
 
 type flowKey struct {
@@ -427,41 +428,208 @@ type FlowResult struct {
 	Exit StateSet
 }
 
-func (f *Flow) dec(c int) (int, int) {
-	if !f.Tags {
-		return c, 0
-	}
-	return c / 3, c % 3
+// code is one element of the engine's internal lattice: an abstract state of
+// the client, the helper-result tag (0 none, 1 true, 2 false) and the value of
+// up to two local bool flags (0 unknown, 1 true, 2 false). A local flag is a
+// bool variable assigned constants on some paths and tested after the merge
+// (`invoked := false; ...; invoked = true; ...; if invoked && ...`): in SSA a
+// family of phis fed by bool constants and by each other. Tracking its value
+// makes the branch on it path-exact, so that the verdict does not depend on a
+// function using early returns or a flag with a single exit.
+type code struct {
+	s, tag int8
+	f      [2]int8
 }
 
-func (f *Flow) enc(s, tag int) int {
-	if !f.Tags {
-		return s
+type codes []code
+
+func (cs codes) has(c code) bool {
+	for _, x := range cs {
+		if x == c {
+			return true
+		}
 	}
-	return s*3 + tag
+	return false
 }
 
-func (f *Flow) strip(st StateSet) StateSet {
-	if !f.Tags {
-		return st
+func (cs codes) add(c code) codes {
+	if cs.has(c) {
+		return cs
 	}
+	return append(cs, c)
+}
+
+func (cs codes) union(o codes) (codes, bool) {
+	ch := false
+	for _, c := range o {
+		if !cs.has(c) {
+			cs = append(cs, c)
+			ch = true
+		}
+	}
+	return cs, ch
+}
+
+func (cs codes) states() StateSet {
 	var o StateSet
-	for _, c := range st.List() {
-		o = o.Add(c / 3)
+	for _, c := range cs {
+		o = o.Add(int(c.s))
 	}
 	return o
+}
+
+// flagInfo: the local bool flags of one function.
+type flagInfo struct {
+	slot map[*ssa.Phi]int // tracked phis -> slot 0/1
+	all  [2][]*ssa.Phi
+}
+
+func boolConst(v ssa.Value) (bool, bool) {
+	if k, ok := v.(*ssa.Const); ok && k.Value != nil && k.Value.Kind() == constant.Bool {
+		return constant.BoolVal(k.Value), true
+	}
+	return false, false
+}
+
+func stripNot(c ssa.Value) (ssa.Value, bool) {
+	neg := false
+	for {
+		u, ok := c.(*ssa.UnOp)
+		if !ok || u.Op != token.NOT {
+			return c, neg
+		}
+		c, neg = u.X, !neg
+	}
+}
+
+func blockReaches(a, b *ssa.BasicBlock) bool {
+	seen := map[*ssa.BasicBlock]bool{}
+	st := append([]*ssa.BasicBlock{}, a.Succs...)
+	for len(st) > 0 {
+		x := st[len(st)-1]
+		st = st[:len(st)-1]
+		if x == b {
+			return true
+		}
+		if seen[x] {
+			continue
+		}
+		seen[x] = true
+		st = append(st, x.Succs...)
+	}
+	return false
+}
+
+func (f *Flow) flagsOf(fn *ssa.Function) *flagInfo {
+	if fi, ok := f.flags[fn]; ok {
+		return fi
+	}
+	fi := &flagInfo{slot: map[*ssa.Phi]int{}}
+	f.flags[fn] = fi
+	// union-find over bool phis connected by phi edges
+	parent := map[*ssa.Phi]*ssa.Phi{}
+	var find func(p *ssa.Phi) *ssa.Phi
+	find = func(p *ssa.Phi) *ssa.Phi {
+		if parent[p] == p {
+			return p
+		}
+		r := find(parent[p])
+		parent[p] = r
+		return r
+	}
+	var phis []*ssa.Phi
+	for _, b := range fn.Blocks {
+		for _, in := range b.Instrs {
+			p, ok := in.(*ssa.Phi)
+			if !ok {
+				break
+			}
+			if bt, ok := p.Type().Underlying().(*types.Basic); ok && bt.Kind() == types.Bool {
+				parent[p] = p
+				phis = append(phis, p)
+			}
+		}
+	}
+	for _, p := range phis {
+		for _, e := range p.Edges {
+			if q, ok := e.(*ssa.Phi); ok && parent[q] != nil {
+				parent[find(p)] = find(q)
+			}
+		}
+	}
+	comp := map[*ssa.Phi][]*ssa.Phi{}
+	for _, p := range phis {
+		comp[find(p)] = append(comp[find(p)], p)
+	}
+	n := 0
+	for _, p := range phis { // deterministic order
+		if find(p) != p && comp[find(p)] == nil {
+			continue
+		}
+		members := comp[find(p)]
+		if members == nil {
+			continue
+		}
+		delete(comp, find(p))
+		hasConst, tested, clash := false, false, false
+		blocks := map[*ssa.BasicBlock]bool{}
+		for _, m := range members {
+			if blocks[m.Block()] {
+				clash = true // two variables merged into one family
+			}
+			blocks[m.Block()] = true
+			for _, e := range m.Edges {
+				if _, ok := boolConst(e); ok {
+					hasConst = true
+				}
+			}
+		}
+		for _, b := range fn.Blocks {
+			if len(b.Instrs) == 0 {
+				continue
+			}
+			if iff, ok := b.Instrs[len(b.Instrs)-1].(*ssa.If); ok {
+				c, _ := stripNot(iff.Cond)
+				if q, ok := c.(*ssa.Phi); ok && parent[q] != nil {
+					for _, m := range members {
+						if m == q {
+							tested = true
+						}
+					}
+				}
+			}
+		}
+		if !hasConst || !tested || clash || n >= 2 {
+			continue
+		}
+		for _, m := range members {
+			fi.slot[m] = n
+		}
+		fi.all[n] = members
+		n++
+	}
+	return fi
+}
+
+// current: phi x holds the flag's latest value at block at (no other phi of
+// the family can have been defined after x on a path to at).
+func (fi *flagInfo) current(x *ssa.Phi, at *ssa.BasicBlock) bool {
+	k := fi.slot[x]
+	for _, r := range fi.all[k] {
+		if r == x {
+			continue
+		}
+		if (r.Block() == x.Block() || blockReaches(x.Block(), r.Block())) && (r.Block() == at || blockReaches(r.Block(), at)) {
+			return false
+		}
+	}
+	return true
 }
 
 // callResultCond: the If condition is (a negation of) the last result of a
 // call to an inlined helper; neg reports the negation.
 func (f *Flow) callResultCond(cond ssa.Value) (isCall bool, neg bool) {
-	for {
-		u, ok := cond.(*ssa.UnOp)
-		if !ok || u.Op != token.NOT {
-			break
-		}
-		cond, neg = u.X, !neg
-	}
+	cond, neg = stripNot(cond)
 	var call *ssa.Call
 	switch x := cond.(type) {
 	case *ssa.Call:
@@ -482,84 +650,49 @@ func (f *Flow) callResultCond(cond ssa.Value) (isCall bool, neg bool) {
 
 func (f *Flow) Run() *FlowResult {
 	f.res = &FlowResult{In: map[*ssa.BasicBlock]StateSet{}, Before: map[ssa.Instruction]StateSet{}, After: map[ssa.Instruction]StateSet{}}
-	f.memo = map[flowKey]StateSet{}
+	f.memo = map[flowKey][]code{}
 	f.stack = map[*ssa.Function]bool{}
-	var entry StateSet
+	f.flags = map[*ssa.Function]*flagInfo{}
+	var entry codes
 	for _, s := range f.Entry.List() {
-		entry = entry.Add(f.enc(s, 0))
+		entry = append(entry, code{s: int8(s)})
 	}
-	f.res.Exit = f.strip(f.runFn(f.Fn, entry, 0))
+	f.res.Exit = f.runFn(f.Fn, entry, 0).states()
 	return f.res
 }
 
-// threadPhi: block b ends in an If on (a negation of) a bool phi of b itself
-// that has constant incoming values: the branch taken is then known per
-// predecessor (a flag set on some paths and tested after the merge).
-func threadPhi(b *ssa.BasicBlock) (*ssa.Phi, bool) {
-	if len(b.Instrs) == 0 {
-		return nil, false
-	}
-	iff, ok := b.Instrs[len(b.Instrs)-1].(*ssa.If)
-	if !ok {
-		return nil, false
-	}
-	c, neg := iff.Cond, false
-	for {
-		u, ok := c.(*ssa.UnOp)
-		if !ok || u.Op != token.NOT {
-			break
-		}
-		c, neg = u.X, !neg
-	}
-	phi, ok := c.(*ssa.Phi)
-	if !ok || phi.Block() != b {
-		return nil, false
-	}
-	n := 0
-	for _, e := range phi.Edges {
-		if k, ok := e.(*ssa.Const); ok && k.Value != nil && k.Value.Kind() == constant.Bool {
-			n++
-		}
-	}
-	if n == 0 {
-		return nil, false
-	}
-	return phi, neg
-}
-
 // runFn analyses fn from the given entry states and returns the join of the
-// states at its normal returns.
-func (f *Flow) runFn(fn *ssa.Function, entry StateSet, depth int) StateSet {
+// states at its normal returns (flags cleared: they are local to fn).
+func (f *Flow) runFn(fn *ssa.Function, entry codes, depth int) codes {
 	res := f.res
 	if len(fn.Blocks) == 0 {
 		return entry
 	}
-	in := map[*ssa.BasicBlock]StateSet{fn.Blocks[0]: entry}
-	inBy := map[*ssa.BasicBlock]map[int]StateSet{} // per predecessor, for blocks that branch on a constant-fed phi
+	fi := f.flagsOf(fn)
+	in := map[*ssa.BasicBlock]codes{fn.Blocks[0]: entry}
 	work := []*ssa.BasicBlock{fn.Blocks[0]}
 	inWork := map[*ssa.BasicBlock]bool{fn.Blocks[0]: true}
-	var exit StateSet
-	runInstrs := func(b *ssa.BasicBlock, cur StateSet) StateSet {
+	var exit codes
+	runInstrs := func(b *ssa.BasicBlock, cur codes) codes {
 		for _, ins := range b.Instrs {
-			res.Before[ins] |= f.strip(cur)
-			var nxt StateSet
-			for _, c := range cur.List() {
-				s, tag := f.dec(c)
+			res.Before[ins] |= cur.states()
+			var nxt codes
+			for _, c := range cur {
 				var o StateSet
 				if f.Transfer == nil {
-					o = o.Add(s)
+					o = o.Add(int(c.s))
 				} else {
-					o = f.Transfer(ins, s)
+					o = f.Transfer(ins, int(c.s))
 				}
-				nt := 0
+				nt := int8(0)
 				if f.Tags {
 					switch x := ins.(type) {
 					case *ssa.If, *ssa.UnOp, *ssa.DebugRef, *ssa.Phi, *ssa.BinOp, *ssa.Jump, *ssa.Extract:
-						nt = tag
+						nt = c.tag
 					case *ssa.Return:
 						if depth > 0 && len(x.Results) > 0 {
-							if k, ok := x.Results[len(x.Results)-1].(*ssa.Const); ok && k.Value != nil && k.Value.Kind() == constant.Bool {
-								if constant.BoolVal(k.Value) {
+							if v, ok := boolConst(x.Results[len(x.Results)-1]); ok {
+								if v {
 									nt = 1
 								} else {
 									nt = 2
@@ -569,98 +702,143 @@ func (f *Flow) runFn(fn *ssa.Function, entry StateSet, depth int) StateSet {
 					}
 				}
 				for _, s2 := range o.List() {
-					nxt = nxt.Add(f.enc(s2, nt))
+					nxt = nxt.add(code{s: int8(s2), tag: nt, f: c.f})
 				}
 			}
 			if f.Inline != nil && depth < 8 {
 				if c, ok := ins.(*ssa.Call); ok {
 					if cal := c.Common().StaticCallee(); cal != nil && len(cal.Blocks) > 0 && !f.stack[cal] && cal != fn && f.Inline(cal) {
-						var out StateSet
-						for _, code := range nxt.List() {
-							s, _ := f.dec(code)
-							k := flowKey{cal, s}
-							if v, ok := f.memo[k]; ok {
-								out |= v
-								continue
+						var out codes
+						for _, cd := range nxt {
+							k := flowKey{cal, int(cd.s)}
+							v, ok := f.memo[k]
+							if !ok {
+								f.stack[fn] = true
+								v = f.runFn(cal, codes{code{s: cd.s}}, depth+1)
+								f.stack[fn] = false
+								f.memo[k] = v
 							}
-							f.stack[fn] = true
-							v := f.runFn(cal, StateSet(0).Add(f.enc(s, 0)), depth+1)
-							f.stack[fn] = false
-							f.memo[k] = v
-							out |= v
+							for _, r := range v {
+								out = out.add(code{s: r.s, tag: r.tag, f: cd.f})
+							}
 						}
 						nxt = out
 					}
 				}
 			}
-			res.After[ins] |= f.strip(nxt)
+			res.After[ins] |= nxt.states()
 			cur = nxt
 			if r, ok := ins.(*ssa.Return); ok {
 				if !(fn.Recover != nil && r.Block() == fn.Recover) {
-					exit |= cur
+					for _, c := range cur {
+						exit = exit.add(code{s: c.s, tag: c.tag})
+					}
 				}
 			}
 		}
 		return cur
 	}
-	propagate := func(b *ssa.BasicBlock, cur StateSet, only int) {
+	propagate := func(b *ssa.BasicBlock, cur codes) {
 		var iff *ssa.If
 		if len(b.Instrs) > 0 {
 			iff, _ = b.Instrs[len(b.Instrs)-1].(*ssa.If)
 		}
-		for i, sc := range b.Succs {
-			if only >= 0 && i != only {
-				continue
-			}
-			out := cur
-			if iff != nil && (f.Branch != nil || f.Tags) {
-				out = 0
-				isCall, neg := false, false
-				if f.Tags {
-					isCall, neg = f.callResultCond(iff.Cond)
+		// the branch tests a tracked local flag
+		flagSlot, flagNeg := -1, false
+		if iff != nil {
+			c, neg := stripNot(iff.Cond)
+			if q, ok := c.(*ssa.Phi); ok {
+				if k, ok := fi.slot[q]; ok && fi.current(q, b) {
+					flagSlot, flagNeg = k, neg
 				}
-				for _, c := range cur.List() {
-					s, tag := f.dec(c)
-					if isCall && tag != 0 {
+			}
+		}
+		for i, sc := range b.Succs {
+			var out codes
+			isCall, neg := false, false
+			if iff != nil && f.Tags {
+				isCall, neg = f.callResultCond(iff.Cond)
+			}
+			for _, c := range cur {
+				if iff != nil {
+					if isCall && c.tag != 0 {
 						truth := (i == 0) != neg
-						if (tag == 1) != truth {
+						if (c.tag == 1) != truth {
 							continue
 						}
 					}
-					ns, ok := s, true
-					if f.Branch != nil {
-						ns, ok = f.Branch(iff, i, s)
-					}
-					if ok {
-						out = out.Add(f.enc(ns, 0))
-					}
-				}
-			}
-			changed := false
-			if old := in[sc]; old|out != old {
-				in[sc] = old | out
-				changed = true
-			}
-			if tp, _ := threadPhi(sc); tp != nil {
-				// remember which predecessor edge the states came in on
-				j := -1
-				seen := 0
-				for k, pb := range sc.Preds {
-					if pb == b {
-						if seen == i || j < 0 {
-							j = k
+					if flagSlot >= 0 {
+						truth := (i == 0) != flagNeg
+						if v := c.f[flagSlot]; v != 0 && (v == 1) != truth {
+							continue
 						}
-						seen++
+						if truth {
+							c.f[flagSlot] = 1
+						} else {
+							c.f[flagSlot] = 2
+						}
+					}
+					if f.Branch != nil {
+						ns, ok := f.Branch(iff, i, int(c.s))
+						if !ok {
+							continue
+						}
+						c.s = int8(ns)
+					}
+					if f.Branch != nil || f.Tags {
+						c.tag = 0
 					}
 				}
-				if inBy[sc] == nil {
-					inBy[sc] = map[int]StateSet{}
-				}
-				if old := inBy[sc][j]; old|out != old {
-					inBy[sc][j] = old | out
-					changed = true
+				out = out.add(c)
+			}
+			// the edge assigns the flags defined by sc's phis
+			j, seen := -1, 0
+			for k, pb := range sc.Preds {
+				if pb == b {
+					if seen == i || j < 0 {
+						j = k
+					}
+					seen++
 				}
 			}
+			if len(fi.slot) > 0 && j >= 0 {
+				for _, pin := range sc.Instrs {
+					p, ok := pin.(*ssa.Phi)
+					if !ok {
+						break
+					}
+					k, ok := fi.slot[p]
+					if !ok {
+						continue
+					}
+					e := p.Edges[j]
+					var set func(c *code)
+					if v, ok := boolConst(e); ok {
+						set = func(c *code) {
+							if v {
+								c.f[k] = 1
+							} else {
+								c.f[k] = 2
+							}
+						}
+					} else if q, ok := e.(*ssa.Phi); ok && fi.slot[q] == k && q != p && fi.current(q, b) {
+						if _, tracked := fi.slot[q]; tracked {
+							set = func(c *code) {}
+						}
+					}
+					if set == nil {
+						set = func(c *code) { c.f[k] = 0 }
+					}
+					var o2 codes
+					for _, c := range out {
+						set(&c)
+						o2 = o2.add(c)
+					}
+					out = o2
+				}
+			}
+			nw, changed := in[sc].union(out)
+			in[sc] = nw
 			if changed && !inWork[sc] {
 				inWork[sc] = true
 				work = append(work, sc)
@@ -671,34 +849,11 @@ func (f *Flow) runFn(fn *ssa.Function, entry StateSet, depth int) StateSet {
 		b := work[0]
 		work = work[1:]
 		inWork[b] = false
-		phi, neg := threadPhi(b)
-		if phi == nil || len(inBy[b]) == 0 {
-			cur := runInstrs(b, in[b])
-			propagate(b, cur, -1)
-			continue
-		}
-		// one pass per predecessor edge: the constant fed into the phi decides the branch
-		for j, st := range inBy[b] {
-			if st.Empty() {
-				continue
-			}
-			cur := runInstrs(b, st)
-			only := -1
-			if j >= 0 && j < len(phi.Edges) {
-				if k, ok := phi.Edges[j].(*ssa.Const); ok && k.Value != nil && k.Value.Kind() == constant.Bool {
-					truth := constant.BoolVal(k.Value) != neg
-					if truth {
-						only = 0
-					} else {
-						only = 1
-					}
-				}
-			}
-			propagate(b, cur, only)
-		}
+		cur := runInstrs(b, in[b])
+		propagate(b, cur)
 	}
 	for b, s := range in {
-		res.In[b] |= f.strip(s)
+		res.In[b] |= s.states()
 	}
 	return exit
 }
